@@ -35,4 +35,10 @@ CHECKS = {
         "note": "Trusted: harness value model and bridge.",
         "design_ref": "DESIGN.md §4 C19",
     },
+    "C04": {
+        "technique": "two-way differential monitor against an independent spec-derived Zinc writer (random legal spellings) and strict reader",
+        "level": "Held on ~3e5 (quick) / ~5e6 (thorough) values x one random spelling each, both directions; every listed spelling freedom observed. Sampling; the trusted base is my transcription of the grammar.",
+        "note": "Trusted: harness/src/refzinc.rs (grammar transcription, DESIGN Appendix A), harness value model, chrono-tz.",
+        "design_ref": "DESIGN.md §4 C04, Appendix A",
+    },
 }
